@@ -13,46 +13,68 @@ from checks.common import run_harness
 from checks import uidrv
 
 
-def sanitize_events(ctx, res, only=None):
-    q = ctx.quick
-    obligations = ctx.tlc("MC_Sanitize", "Gen_Sanitize.cfg").json_lines("GEN")
-    if len(obligations) < 100:
-        raise vlib.Inconclusive("obligation generator produced %d obligations" % len(obligations))
+def obligations(ctx, res, only=None):
+    obl = ctx.tlc("MC_Sanitize", "Gen_Sanitize.cfg").json_lines("GEN")
+    if len(obl) < 100:
+        raise vlib.Inconclusive("obligation generator produced %d obligations" % len(obl))
+    res.extra["obligations_from_tlc"] = len(obl)
     if only:
-        obligations = [o for o in obligations if o["src"] in only]
-    evs, _, _ = run_harness(ctx, "pub", "TestVerifSanitize", {"obligations": obligations, "all": not q}, timeout=3000)
-    res.extra["obligations_from_tlc"] = len(obligations)
+        obl = [o for o in obl if o["src"] in only]
+    return obl
+
+
+def sanitize_events(ctx, res, only=None, chunk=None):
+    """Outputs of the sanitize driver for the given obligations (all of them by default)."""
+    obl = chunk if chunk is not None else obligations(ctx, res, only)
+    evs, _, _ = run_harness(ctx, "pub", "TestVerifSanitize", {"obligations": obl, "all": not ctx.quick}, timeout=3000,
+                            name="sanitize-%s" % (obl[0]["src"] if chunk is not None and obl else "all"))
     return evs
+
+
+def judge_outputs(ctx, res, evs, tag):
+    """NoCtl on a batch of output events; counts go to res, violations are returned."""
+    for e in evs:
+        e["chk"] = ["noctl"]
+        e.setdefault("ops", [])
+        e.setdefault("src", "ui frame")
+    bad, r2 = vlib.judge(ctx, "T_Term", "T_Term.cfg", evs, name="T_Term-" + tag)
+    res.traces += len(evs)
+    for e in evs:
+        res.case([e["kind"], e["src"], [(t["t"], t.get("n"), t.get("p"), t.get("code")) for t in e["toks"]][:200]])
+    some = [e for e in evs if e["kind"].startswith("item-")]
+    for e in some[:1]:
+        res.sample({"kind": e["kind"], "src": e["src"], "raw": e.get("raw")}, limit=5)
+    out = []
+    for b in bad:
+        e = evs[b["line"] - 1]
+        codes = sorted({t.get("code", 0) for t in e["toks"] if t["t"] == "ctl"})
+        sig = {"monitor": "NoCtl", "source": e["src"].split("/")[0].split(" ")[0], "kind": e["kind"]}
+        path = vlib.save_replay(ctx.pid, "%s-l%d" % (tag, b["line"]), {k: e.get(k) for k in ("kind", "src", "raw")})
+        out.append((sig, path, "%s of %s contains control codes %s / unknown SGR: %s" % (e["kind"], e["src"], codes, (e.get("raw") or "")[:120])))
+    return out
 
 
 def run(ctx):
     res = vlib.Result(ctx, "exploration")
     r = ctx.tlc("MC_Sanitize", "MC_Sanitize.cfg").require_clean()
     res.add_tlc(r)
-    evs = sanitize_events(ctx, res)
+    obl = obligations(ctx, res)
+    # source by source, so that neither the harness output nor the trace handed to TLC grows without bound
+    sources = sorted({o["src"] for o in obl} - {"hook_output", "typed_text"})
+    groups = [[s] for s in sources] if not ctx.quick else [sources[0::3], sources[1::3], sources[2::3]]
+    for group in groups:
+        part = [o for o in obl if o["src"] in group]
+        if not part:
+            continue
+        evs = sanitize_events(ctx, res, chunk=part)
+        res.violations += judge_outputs(ctx, res, evs, group[0])
+        del evs
     ui = uidrv.ui_events(ctx, res, frames=True)
-    evs += [e for e in ui if e["ev"] == "out"]
-    for e in evs:
-        e["chk"] = ["noctl"]
-        e.setdefault("ops", [])
-        e.setdefault("src", "ui frame")
-    bad, r2 = vlib.judge(ctx, "T_Term", "T_Term.cfg", evs)
-    res.traces = len(evs)
-    for e in evs:
-        res.case([e["kind"], e["src"], [(t["t"], t.get("n"), t.get("p"), t.get("code")) for t in e["toks"]][:200]])
+    res.violations += judge_outputs(ctx, res, [e for e in ui if e["ev"] == "out"], "frames")
     res.rule = ("a case is one string the real code would print (Name, Preview, String at two widths, parents, creators, actor; UI "
                 "frames) for an item built from a document or HTTP exchange carrying one payload (character class x encoding x "
                 "field x position); tokenised and judged by T_Term (no control token, only SGR sequences of the kinds servitor "
                 "generates); distinct = distinct (output kind, obligation and field, token stream)")
-    some = [e for e in evs if e["kind"].startswith("item-")]
-    for e in some[:2] + some[-1:]:
-        res.sample({"kind": e["kind"], "src": e["src"], "raw": e.get("raw")})
     res.assumptions = ["printable = not unicode.IsControl and no escape; format/bidi characters are not demanded away",
                        "quick: boundary and well-known representatives of each class; thorough: every code of each class"]
-    for b in bad:
-        e = evs[b["line"] - 1]
-        codes = sorted({t.get("code", 0) for t in e["toks"] if t["t"] == "ctl"})
-        sig = {"monitor": "NoCtl", "source": e["src"].split("/")[0].split(" ")[0], "kind": e["kind"]}
-        path = vlib.save_replay(ctx.pid, "l%d" % b["line"], {k: e.get(k) for k in ("kind", "src", "raw")})
-        res.violations.append((sig, path, "%s of %s contains control codes %s / unknown SGR: %s" % (e["kind"], e["src"], codes, (e.get("raw") or "")[:120])))
     return res
